@@ -147,7 +147,7 @@ def main():
         if not c:
             continue
         checks.append({"property_id": p["id"], "quick_cmd": f"./check {p['id']} quick", "thorough_cmd": f"./check {p['id']} thorough",
-                       "evidence_file": f"/verif/evidence/{p['id']}.json", "replay_cmd_template": "cat {path}",
+                       "evidence_file": f"/verif/evidence/{p['id']}.json", "replay_cmd_template": "./replay {path}",
                        "engine": "tlc+replay", "level_claimed": {"category": c["cat"], "text": c["text"], "design_ref": c["sec"]},
                        "level_note": c["note"], "technique": c["tech"]})
     na = [{"property_id": p["id"], "reason": NA.get(p["id"], "check not built yet (work in progress, see DESIGN.md section 10)")}
